@@ -60,6 +60,30 @@ UNITS.append(Unit(
     call=choose_call(False), native_call=choose_call(True)))
 
 
+# an Excel error among the alternatives: it is the result only when it is the SELECTED alternative
+def choose_err_call(native, pos):
+    def call(it, fn, idx):
+        vals = [T().Text('first'), T().Text('second'), T().Text('third')]
+        vals[pos] = spec.E().DivZeroExcelError('seeded by pyvc (alternative)')
+        res = fn(idx, *vals) if native else it.call(fn, [idx] + vals, {})
+        for k, v in enumerate(vals):
+            if res is v:
+                return k + 1
+        return res
+    if native:
+        return lambda fn, idx: call(None, fn, idx)
+    return call
+
+
+for _pos in range(3):
+    UNITS.append(Unit(
+        id=f'C15/lookup.CHOOSE/error_alternative@{_pos + 1}', target=f'{LK}:CHOOSE',
+        inputs=[('index', Fork([Xl('Number', 'int', domain=[-1, 0, 1, 2, 3, 4]), Xl('Number', 'real', domain=[0.5, 1.0, 1.5, 2.9, 3.0, 3.5])]))],
+        cases=[Case(f'an error as alternative {_pos + 1} is the result exactly when the index selects it: CHOOSE(i, ...) = v_i inside 1..3, #VALUE! outside',
+                    lambda i: True, choose_ens)],
+        call=choose_err_call(False, _pos), native_call=choose_err_call(True, _pos)))
+
+
 # ---- MATCH --------------------------------------------------------------------------------------------------------------------------
 def match_call(native, mtype):
     def call(it, fn, key, a, b, c):
